@@ -342,6 +342,8 @@ impl<'a> Runner<'a> {
                     shadow.reset();
                     "orecv drop".to_string()
                 }
+                // history items starting with '#' are literal ops (`#cleanup`, `#expect <toi> <mode> <hex>`), not datagrams
+                Some(raw) if raw.first() == Some(&b'#') => format!("orecv {}", String::from_utf8_lossy(&raw[1..])),
                 Some(raw) => describe(raw, &mut shadow),
             };
             let kind = op.split(' ').nth(1).unwrap_or("").to_string();
@@ -1072,6 +1074,148 @@ pub fn run(ctx: &mut Ctx, eng: &mut dyn Engine) {
                 }
             }
         }
+    }
+
+    // ---- 13. object time-out: Receiver::cleanup() releases stalled objects (writer open or not), then traffic goes on
+    for i in 0..(if thorough { 120 } else { 30 }) {
+        let scheme = *rng.pick(&[0u8, 5]);
+        let (e, b) = (*rng.pick(&[8u16, 16]), *rng.pick(&[2u16, 3]));
+        let size = rng.range((e * b) as u64 + 1, (e * b * 3) as u64) as usize;
+        let oti = scheme_oti(scheme, e, b, 1, rng.bool());
+        let spec = ObjSpec { content: content(&mut rng, size), cenc: Cenc::Null, inband_cenc: false, md5: rng.bool(), oti: None, transfers: 1 };
+        let sess = match make_session(&oti, &[spec], 1, 1) {
+            Some(s) => s,
+            None => continue,
+        };
+        let n = sess.pkts.len();
+        let cut = rng.range(1, n as u64 - 1) as usize;
+        let mut h: Vec<Option<Vec<u8>>> = sess.pkts[..cut].iter().cloned().map(Some).collect();
+        h.push(Some(b"#cleanup".to_vec()));
+        if i % 2 == 0 {
+            h.extend(sess.pkts[cut..].iter().cloned().map(Some));
+        }
+        h.push(None);
+        let cc = CaseCfg { once: rng.bool(), maxerr: *rng.pick(&[0usize, 2]), expect_mode: None, ..Default::default() };
+        r.case("timeout", &cc, &sess, &[], &h, false);
+    }
+
+    // ---- 14. content encoding, the END of the compressed stream damaged (gzip CRC / zlib Adler trailer, last bytes of the last
+    //          packet): only the final flush of the decoder can notice
+    for &cenc in &[Cenc::Gzip, Cenc::Zlib] {
+        for size in [40usize, 700] {
+            for back in [1usize, 3, 6] {
+                let oti = scheme_oti(0, 16, 4, 0, true);
+                let spec = ObjSpec { content: content(&mut rng, size), cenc, inband_cenc: true, md5: false, oti: None, transfers: 1 };
+                let sess = match make_session(&oti, &[spec], 1, 1) {
+                    Some(s) => s,
+                    None => continue,
+                };
+                let o = sess.objs[0].clone();
+                // the packet carrying the last byte of the transfer = last source packet of the object
+                let last = sess.pkts.iter().rposition(|raw| alc::parse_alc_pkt(raw).map(|p| p.lct.toi == o.toi && raw.len() > p.data_payload_offset).unwrap_or(false));
+                let mut h = all_pushed(&sess.pkts);
+                if let Some(li) = last {
+                    let mut raw = sess.pkts[li].clone();
+                    let off = alc::parse_alc_pkt(&raw).unwrap().data_payload_offset;
+                    if raw.len() - off >= back {
+                        let at = raw.len() - back;
+                        raw[at] ^= 0x5a;
+                        h[li] = Some(raw);
+                    }
+                }
+                h.push(None);
+                let cc = CaseCfg { expect_mode: None, ..Default::default() };
+                r.case("cenc-trailer", &cc, &sess, &[], &h, false);
+            }
+        }
+    }
+
+    // ---- 14b. the compressed stream TRUNCATED: the FDT entry announces a transfer length k bytes short (it arrives first, the
+    //           in-band FTI is then only compared): only finish() + the final decoder_read can notice
+    for &cenc in &[Cenc::Gzip, Cenc::Zlib, Cenc::Deflate] {
+        for size in [40usize, 700] {
+            for k in [1u64, 4] {
+                let oti = scheme_oti(0, 16, 4, 0, true);
+                let spec = ObjSpec { content: content(&mut rng, size), cenc, inband_cenc: true, md5: false, oti: None, transfers: 1 };
+                let sess = match make_session(&oti, &[spec], 1, 1) {
+                    Some(s) => s,
+                    None => continue,
+                };
+                let o = sess.objs[0].clone();
+                let tl = o.transfer.len() as u64;
+                if tl <= k + 1 {
+                    continue;
+                }
+                // hand-written FDT instance first: Transfer-Length k bytes short, real Content-Length, then the genuine packets
+                let cenc_name = match cenc {
+                    Cenc::Gzip => "gzip",
+                    Cenc::Zlib => "zlib",
+                    _ => "deflate",
+                };
+                let xml = fdt_xml(&[format!(
+                    "<File TOI=\"{}\" Content-Location=\"file:///o0\" Content-Length=\"{}\" Transfer-Length=\"{}\" Content-Encoding=\"{}\" FEC-OTI-FEC-Encoding-ID=\"0\" FEC-OTI-Maximum-Source-Block-Length=\"4\" FEC-OTI-Encoding-Symbol-Length=\"16\"/>",
+                    o.toi, size, tl - k, cenc_name
+                )]);
+                let mut h: Vec<Option<Vec<u8>>> = fdt_packets(7, &xml).into_iter().map(Some).collect();
+                for raw in &sess.pkts {
+                    if alc::parse_alc_pkt(raw).map(|p| p.lct.toi == o.toi).unwrap_or(false) {
+                        h.push(Some(raw.clone()));
+                    }
+                }
+                h.push(None);
+                let cc = CaseCfg { expect_mode: None, ..Default::default() };
+                r.case("cenc-truncated", &cc, &sess, &[], &h, false);
+            }
+        }
+    }
+
+    // ---- 15. a TOI reused for DIFFERENT content while the older FDT instance that listed it is still retained
+    //          (FDT-only OTI, no MD5, receive_once off): the new object must take the NEWEST instance listing the TOI
+    for i in 0..(if thorough { 40 } else { 10 }) {
+        let (e, b) = (*rng.pick(&[8u16, 16]), *rng.pick(&[2u16, 3]));
+        let oti = scheme_oti(0, e, b, 0, false);
+        let size_a = rng.range(5, (e * b * 2) as u64) as usize;
+        let size_b = rng.range(5, (e * b * 3) as u64) as usize;
+        let mk = |content: Vec<u8>, fdt_id: u32| -> Option<Session> {
+            let oti = oti.clone();
+            guarded(std::panic::AssertUnwindSafe(move || {
+                let mut cfg = sender::Config::default();
+                cfg.toi_initial_value = Some(1);
+                cfg.fdt_start_id = fdt_id;
+                let mut s = Sender::new(endpoint(), TSI, &Oti::new_no_code(1400, 64), &cfg);
+                let url = url::Url::parse("file:///reused").unwrap();
+                let tc = TransferConfig { oti: Some(oti.clone()), ..Default::default() };
+                let desc = ObjectDesc::create_from_buffer(content.clone(), "application/octet-stream", &url, false, tc).ok()?;
+                let toi = s.add_object(0, desc).ok()?;
+                s.publish(now()).ok()?;
+                let mut pkts = Vec::new();
+                while let Some(p) = s.read(now()) {
+                    pkts.push(p);
+                    if pkts.len() > 5000 {
+                        break;
+                    }
+                }
+                Some(Session { pkts, objs: vec![ObjInfo { toi, content: content.clone(), transfer: content, cenc: Cenc::Null, oti }] })
+            }))
+            .ok()
+            .flatten()
+        };
+        let (sa, sb) = match (mk(content(&mut rng, size_a), 1), mk(content(&mut rng, size_b), 2)) {
+            (Some(a), Some(b)) => (a, b),
+            _ => continue,
+        };
+        let mut h = all_pushed(&sa.pkts);
+        h.push(Some(format!("#expect {} g {}", sb.objs[0].toi, hex(&sb.objs[0].content)).into_bytes()));
+        h.extend(all_pushed(&sb.pkts));
+        if i % 2 == 1 {
+            // and once more the first content: stale packets of the OLD content are decoded under the new FDT entry (no oracle:
+            // they are not genuine for it; what the model predicts is compared)
+            h.push(Some(format!("#expect {} x -", sb.objs[0].toi).into_bytes()));
+            h.extend(sa.pkts.iter().filter(|raw| alc::parse_alc_pkt(raw).map(|p| p.lct.toi != 0).unwrap_or(false)).cloned().map(Some));
+        }
+        h.push(None);
+        let cc = CaseCfg { once: false, ..Default::default() };
+        r.case("toi-reuse", &cc, &sa, &[], &h, false);
     }
 }
 
